@@ -167,6 +167,9 @@ class E2EDriver:
             interface.DBusInterface.knownInterfaces.pop('org.ex.Other', None)
             ca.getRemoteObject('org.ex.Srv', '/obj', interfaces=['org.ex.Echo', 'org.ex.Other'],
                                replaceKnownInterfaces=True).addBoth(got.append)
+            # ... while a second, ordinary introspection (no replacement asked for) is in flight on the same connection
+            self.also = []
+            ca.getRemoteObject('org.ex.Srv', '/obj').addBoth(self.also.append)
         elif introspect:
             ca.getRemoteObject('org.ex.Srv', '/obj').addBoth(got.append)
         else:
